@@ -41,6 +41,19 @@ pub broadcast axiom fn axiom_eff_member(a: Vec<u64>, b: Vec<u64>)
     ensures #[trigger] msg_of(RaftIndexRequest::SaveMember { member: a, member_after_consensus: None, node_addr: None })
         == #[trigger] msg_of(RaftIndexRequest::SaveMember { member: b, member_after_consensus: None, node_addr: None });
 
+/// a membership message in general: member list, joint-consensus list, address table — as VALUES (which Vec / HashMap carries them
+/// is not part of the message)
+pub uninterp spec fn save_member_msg(member: Seq<u64>, after: Option<Seq<u64>>, addrs: Option<AddrTbl>) -> Msg;
+/// the VALUE of an address table: a function of its key set and of the address each key maps to
+pub ghost struct AddrTbl { pub id: int }
+pub uninterp spec fn addr_tbl(h: HashMap<u64, Arc<String>>) -> AddrTbl;
+pub broadcast axiom fn axiom_addr_tbl(a: HashMap<u64, Arc<String>>, b: HashMap<u64, Arc<String>>)
+    requires a@.dom() =~= b@.dom(), forall|k: u64| #[trigger] a@.contains_key(k) ==> a@[k] == b@[k]
+    ensures #[trigger] addr_tbl(a) == #[trigger] addr_tbl(b);
+pub broadcast axiom fn axiom_eff_save_member(m: Vec<u64>, mac: Option<Vec<u64>>, na: Option<HashMap<u64, Arc<String>>>)
+    ensures #[trigger] msg_of(RaftIndexRequest::SaveMember { member: m, member_after_consensus: mac, node_addr: na })
+        == save_member_msg(m@, match mac { Some(v) => Some(v@), None => None }, match na { Some(h) => Some(addr_tbl(h)), None => None });
+
 /// a table write is (table name TEXT, key, value): which Arc carries the name is not part of the message
 pub uninterp spec fn table_set_msg(name: Seq<char>, key: Vec<u8>, value: Vec<u8>) -> Msg;
 pub broadcast axiom fn axiom_eff_table_set(t: Arc<String>, key: Vec<u8>, value: Vec<u8>)
@@ -116,7 +129,6 @@ pub fn bin_to_id(buf: &[u8]) -> (r: u64)
 { unimplemented!() }
 
 pub struct RaftLogManager { pub vx_opaque: u8 }
-pub struct SnapshotHeaderDto { pub vx_opaque: u8 }
 #[verifier::external_body]
 #[verifier::reject_recursive_types(A)]
 pub struct Context<A> { inner: core::marker::PhantomData<A> }
@@ -169,6 +181,62 @@ impl From<&str> for ConfigKey {
     #[verifier::external_body]
     fn from(value: &str) -> (r: Self)
         ensures r == key_of_text(value@)
+    { unimplemented!() }
+}
+
+// ---- the storage actors' requests the start-up chain sends
+impl Message for RaftSnapshotRequest { type Result = anyhow::Result<RaftSnapshotResponse>; }
+/// model of raftlog::RaftLogManagerAsyncRequest (pinned by [[expect_text]]): the loader is the one implementor of LogRecordLoader
+pub enum RaftLogManagerAsyncRequest {
+    Query { start: u64, end: u64 },
+    GetLastLogIndex,
+    Load { start: u64, end: u64, loader: Arc<LogRecordLoaderInstance> },
+}
+pub struct RaftLogResponse { pub vx_opaque: u8 }
+impl Message for RaftLogManagerAsyncRequest { type Result = anyhow::Result<RaftLogResponse>; }
+/// a replay request is (first index, end index, the loader's wiring) — which Arc carries the loader is not part of the message
+pub uninterp spec fn load_msg(start: u64, end: u64, loader: LogRecordLoaderInstance) -> Msg;
+pub broadcast axiom fn axiom_eff_load(start: u64, end: u64, loader: Arc<LogRecordLoaderInstance>)
+    ensures #[trigger] msg_of(RaftLogManagerAsyncRequest::Load { start, end, loader }) == load_msg(start, end, *loader);
+
+// ---- the snapshot file, as the apply manager sees it (SnapshotReader: assumed here, see unit snapshot)
+/// header / records a snapshot file image holds; `snap_readable`: no I/O fault on this handle and every frame of the image decodes
+pub uninterp spec fn snap_hdr(c: Seq<u8>) -> Option<SnapshotHeaderDto>;
+pub uninterp spec fn snap_recs(c: Seq<u8>) -> Seq<SnapshotRecordDto>;
+pub uninterp spec fn snap_readable(f: tokio::fs::File) -> bool;
+#[verifier::external_body]
+pub struct SnapshotReader { vx: u8 }
+impl SnapshotReader {
+    pub uninterp spec fn hdr(&self) -> SnapshotHeaderDto;
+    /// the records not handed out yet
+    pub uninterp spec fn remaining(&self) -> Seq<SnapshotRecordDto>;
+    /// some read of the underlying file fails or some frame does not decode
+    pub uninterp spec fn faulty(&self) -> bool;
+    #[verifier::external_body]
+    pub async fn init_by_file(file: Box<tokio::fs::File>) -> (r: anyhow::Result<Self>)
+        ensures
+            r is Ok ==> snap_hdr(file.contents()) == Some(r.unwrap().hdr()) && r.unwrap().remaining() == snap_recs(file.contents())
+                && r.unwrap().faulty() == !snap_readable(*file),
+            r is Err ==> !snap_readable(*file),
+    { unimplemented!() }
+    #[verifier::external_body]
+    pub async fn init(path: &str) -> (r: anyhow::Result<Self>)
+        ensures
+            r is Ok ==> snap_hdr(disk_at_open(path@)) == Some(r.unwrap().hdr()) && r.unwrap().remaining() == snap_recs(disk_at_open(path@)),
+    { unimplemented!() }
+    #[verifier::external_body]
+    pub fn get_header(&self) -> (r: &SnapshotHeaderDto)
+        ensures *r == self.hdr()
+    { unimplemented!() }
+    #[verifier::external_body]
+    pub async fn read_record(&mut self) -> (r: anyhow::Result<Option<SnapshotRecordDto>>)
+        ensures
+            final(self).faulty() == old(self).faulty(), final(self).hdr() == old(self).hdr(),
+            match r {
+                Ok(Some(x)) => old(self).remaining().len() > 0 && x == old(self).remaining()[0] && final(self).remaining() == old(self).remaining().skip(1),
+                Ok(None) => old(self).remaining().len() == 0 && final(self).remaining() == old(self).remaining(),
+                Err(_) => old(self).faulty() && final(self).remaining() == old(self).remaining(),
+            }
     { unimplemented!() }
 }
 } // verus!
